@@ -341,6 +341,8 @@ def _retry_same_track(case, trace, i):
     t = trace[i]
     if not t["attempts"] or t["op"][0] in ("load", "previous"):
         return  # previous() under repeat/consume/random re-selects the same track by design
+    if t["op"][0] == "atf" and i > 0 and trace[i - 1]["modes"][2] and trace[i - 1]["modes"][3]:
+        return  # single+repeat: the end-of-track successor is the track itself, by design
     before = _prev_tl(trace, i)
     mult = {}
     for _, trk in before:
